@@ -229,7 +229,7 @@ pub fn parse_unit(text: &str) -> Unit {
                 match mode.as_str() {
                     "start" | "end" | "tail" | "rawstart" => {}
                     "loopstart" | "loopend" | "rawloopstart" => p.anchor = words.get(1).cloned().unwrap_or_default(),
-                    "before" | "after" | "wrap" => {
+                    "before" | "after" | "wrap" | "rawbefore" => {
                         let after_mode = rest[mode.len()..].to_string();
                         let (q, rem) = parse_quoted(&after_mode);
                         p.anchor = q;
